@@ -15,17 +15,30 @@ ToSet(s) == {s[i] : i \in 1..Len(s)}
 \* rank[id+1] = rank of row id by log-probability in the full chain (higher = more probable, all distinct)
 \* f8 = requested fraction in eighths; m = requested count (0: none); ids = returned row ids (in returned order);
 \* pids = for each returned probability the id of the row it belongs to; ndim = dimensions of the returned sample array
-Top(sel, rank, f8) ==          \* the top fraction of the burned-and-thinned chain: drop the floor(n'(1-f)) least probable
+\* rank may hold TIES (equal log-probabilities have equal rank); the top fraction drops floor(n'(1-f)) rows none of which is more probable
+\* than a row that is kept -- with all ranks distinct there is exactly one such set, Top
+Top(sel, rank, f8) ==
     LET np == Len(sel)  drop == (np * (8 - f8)) \div 8
         worse(i) == Cardinality({j \in 1..np : rank[sel[j] + 1] < rank[sel[i] + 1]})
     IN {sel[i] : i \in {i \in 1..np : worse(i) >= drop}}
+Drop(sel, f8) == (Len(sel) * (8 - f8)) \div 8
+IsTop(sel, rank, f8, R) ==      \* R is A top fraction of sel
+    /\ R \subseteq ToSet(sel) /\ Cardinality(R) = Len(sel) - Drop(sel, f8)
+    /\ \A a \in R, b \in ToSet(sel) \ R : rank[b + 1] <= rank[a + 1]
+InSomeTop(sel, rank, f8, R) ==  \* R is part of SOME top fraction of sel: R and every row strictly more probable than R's least probable fit
+    /\ R \subseteq ToSet(sel)
+    /\ (R # {} => LET w == CHOOSE x \in {rank[a + 1] : a \in R} : \A a \in R : rank[a + 1] >= x
+                      must == R \cup {b \in ToSet(sel) : rank[b + 1] > w}
+                  IN Cardinality(must) <= Len(sel) - Drop(sel, f8))
 IntervalOK(n, burn, thin, f8, m, rank, ids, pids, ndim) ==
     /\ ndim = 2                                                    \* always a two-dimensional array
     /\ Len(ids) = Len(pids) /\ \A i \in 1..Len(ids) : ids[i] = pids[i]          \* rows come with their own log-probabilities
     /\ Cardinality(ToSet(ids)) = Len(ids)                          \* no row twice
-    /\ IF m = 0 THEN ToSet(ids) = Top(Select(n, burn, thin), rank, f8)          \* every row of the top fraction
+    /\ IF m = 0 THEN IsTop(Select(n, burn, thin), rank, f8, ToSet(ids))         \* every row of the top fraction
        ELSE /\ Len(ids) <= m                                        \* at most the requested size
             /\ \E t \in 1..(IF n > 1 THEN n ELSE 1) :               \* the derived thinning is free (DESIGN 2a)
-                  ToSet(ids) \subseteq Top(Select(n, burn, t), rank, f8)
-            /\ (Top(Select(n, burn, 1), rank, f8) # {} => Len(ids) >= 1)
+                  InSomeTop(Select(n, burn, t), rank, f8, ToSet(ids))
+            /\ (Len(Select(n, burn, 1)) - Drop(Select(n, burn, 1), f8) > 0 => Len(ids) >= 1)
+\* with distinct ranks the generalised predicates are the old ones (checked by MC_Readout on every enumerated selection)
+TopAgrees(sel, rank, f8) == IsTop(sel, rank, f8, Top(sel, rank, f8))
 =============================================================================
